@@ -504,7 +504,8 @@ class FmtStr:
         If a fillchar is provided, less formatting information will be preserved
         """
         if fillchar is not None:
-            return fmtstr(self.s.ljust(width, fillchar), **self.shared_atts)
+            # the padded text is text, not an escape-coded string
+            return FmtStr(Chunk(self.s.ljust(width, fillchar), self.shared_atts))
         to_add = " " * (width - len(self.s))
         shared = self.shared_atts
         if "bg" in shared:
@@ -519,7 +520,8 @@ class FmtStr:
         If a fillchar is provided, less formatting information will be preserved
         """
         if fillchar is not None:
-            return fmtstr(self.s.rjust(width, fillchar), **self.shared_atts)
+            # the padded text is text, not an escape-coded string
+            return FmtStr(Chunk(self.s.rjust(width, fillchar), self.shared_atts))
         to_add = " " * (width - len(self.s))
         shared = self.shared_atts
         if "bg" in shared:
